@@ -428,6 +428,12 @@ func c05Scenarios(thorough bool) []c05Scenario {
 		{nil, []string{"**/u2"}},
 		{[]string{"**/Protocol:PROTOCOL_GRPC/**"}, nil},
 		{[]string{"**"}, []string{"**/Protocol:PROTOCOL_CONNECT/**"}},
+		// patterns that tell the gRPC-peer permutations (marked names) from the plain ones
+		{[]string{"**/(grpc server impl)/**"}, nil},
+		{nil, []string{"**/(grpc server impl)/**"}},
+		{[]string{"**/(grpc client impl)/**"}, nil},
+		{nil, []string{"**/(grpc client impl)/**"}},
+		{[]string{"S/*/Protocol:PROTOCOL_GRPC/*/*/*/u1"}, nil}, // exact depth: only the unmarked name
 	}
 	cfgs := []string{"A2", "A3"}
 	suites := []string{"one", "two"}
@@ -443,6 +449,9 @@ func c05Scenarios(thorough bool) []c05Scenario {
 				for fi, f := range filters {
 					if !thorough && fi > 3 && !(cfg == "A3" && su == "two") {
 						continue
+					}
+					if fi >= 6 && mode == "both" {
+						continue // no gRPC reference peers take part
 					}
 					for _, ms := range maxes {
 						out = append(out, c05Scenario{Cfg: cfg, Suites: su, Mode: mode, Run: f.run, Skip: f.skip, MaxServers: ms, FailStart: -1})
